@@ -54,13 +54,13 @@ func TestC05(t *testing.T) {
 					r.Violation(cid, "panic/monitor-or-code", map[string]interface{}{"panic": fmt.Sprint(rec)})
 				}
 			}()
-			runHistory(r, cid, L)
+			runHistory(r, cid, L, h%3 == 2)
 		}()
 	}
 	r.MinNontrivial(r.N(100, 5000))
 }
 
-func runHistory(r *core.Run, cid string, L int) {
+func runHistory(r *core.Run, cid string, L int, crowded bool) {
 	rng := r.Rng(cid)
 	s, err := pkt.NewSim(rng, pkt.Config{Chains: 3, Users: 2, Relayers: 2, Tokens: 2, Native: true})
 	if err != nil {
@@ -71,6 +71,17 @@ func runHistory(r *core.Run, cid string, L int) {
 	for _, n := range s.W.Nodes {
 		m.acks[n.Name] = n.DumpPrefix(n.Ctx(), "xibc", []byte("acks/"))
 		m.comms[n.Name] = n.DumpPrefix(n.Ctx(), "xibc", []byte("commitments/"))
+	}
+	if crowded {
+		// one path carries a dozen packets at a time: the keys of sequence 1 and of 10, 11, ... share a prefix, and the
+		// acknowledgement of one of them must not touch what belongs to the others
+		a, b := s.RandNodePair()
+		s.Focus, s.FocusPct = []*core.Node{a, b}, 100
+		for i := 0; i < 12 && r.Violations() == 0; i++ {
+			m.send()
+		}
+		s.FocusPct = 70
+		r.Count("crowded_path_histories", 1)
 	}
 	for i := 0; i < L; i++ {
 		x := rng.Intn(100)
